@@ -59,6 +59,7 @@ static fixed_t fx(i128 v){ return as_fixed((int64_t)v); }
 template<typename T> static bool in_range(i128 v)
   { return v >= (i128)std::numeric_limits<T>::min() && v <= (i128)std::numeric_limits<T>::max(); }
 
+static_assert(sizeof(long long)==8 && !std::is_same_v<long long, int64_t> && !std::is_same_v<unsigned long long, uint64_t>, "alias type table of tools/gen.py assumes LP64 Linux");
 // integral type matrix
 template<typename T>
 static bool typed_int(const std::string& fn, const std::vector<i128>& a)
@@ -230,6 +231,9 @@ static bool eval(const std::string& fn, const std::string& tag, const std::vecto
   if(tag=="u16") return typed_int<uint16_t>(fn,a);
   if(tag=="u32") return typed_int<uint32_t>(fn,a);
   if(tag=="u64") return typed_int<uint64_t>(fn,a);
+  // distinct integral types sharing the representation of a fixed-width typedef (LP64 Linux)
+  if(tag=="ll") return typed_int<long long>(fn,a);
+  if(tag=="ull") return typed_int<unsigned long long>(fn,a);
   return false;
   }
 
